@@ -837,6 +837,7 @@ func (m *Machine) Step(in *Interp, s0 *State, b int) []Outcome {
 	s.events, s.notes, s.popped, s.pushed, s.readStale = nil, nil, nil, nil, nil
 	s.errArg = nil
 	s.assigned = nil
+	s.pendingRestore = 0
 	s.locals[m.offVar] = vOff(0, false)
 	var outs []Outcome
 	for _, e := range in.execList(m.loop.Body.List, s) {
@@ -1071,6 +1072,7 @@ func (m *Machine) outcome(e Exit, eof bool) Outcome {
 	n.events, n.notes, n.popped, n.pushed, n.readStale = nil, nil, nil, nil, nil
 	n.errArg = nil
 	n.assigned = nil
+	n.pendingRestore = 0
 	o.Next = n
 	return o
 }
